@@ -327,7 +327,7 @@ func (fc *FuncCtx) evalSpec(st *State, e *SExpr, sc *specCtx) Val {
 		if base.Typ == nil {
 			panic(engineError{fmt.Sprintf("spec: selector %s on value without Go type", e)})
 		}
-		obj, index, _ := types.LookupFieldOrMethod(base.Typ, true, fc.pkgOf(sc), e.Name)
+		obj, index, _ := lookupFM(base.Typ, fc.pkgOf(sc), e.Name)
 		switch o := obj.(type) {
 		case *types.Var:
 			l := fc.specFieldLoc(st, base, index, sc)
@@ -516,7 +516,7 @@ func (fc *FuncCtx) specLoc(st *State, e *SExpr, sc *specCtx) *Loc {
 		if base.Typ == nil {
 			return nil
 		}
-		obj, index, _ := types.LookupFieldOrMethod(base.Typ, true, fc.pkgOf(sc), e.Name)
+		obj, index, _ := lookupFM(base.Typ, fc.pkgOf(sc), e.Name)
 		if _, ok := obj.(*types.Var); ok {
 			return fc.specFieldLoc(st, base, index, sc)
 		}
@@ -715,6 +715,18 @@ func (fc *FuncCtx) specBuiltin(st *State, name string, argEs []*SExpr, sc *specC
 	case "bit":
 		a, k := arg(0), arg(1)
 		return Val{T: mk("bit", SInt, a.T, k.T), Typ: tInt}, true
+	case "res":
+		// res(call, i): i-th result of a multi-result call
+		a := arg(0)
+		var i int
+		fmt.Sscanf(argEs[1].Name, "%d", &i)
+		if len(a.Tuple) == 0 && i == 0 {
+			return a, true
+		}
+		if i < len(a.Tuple) {
+			return a.Tuple[i], true
+		}
+		panic(engineError{"spec: res(): index out of range in " + argEs[0].String()})
 	case "as":
 		// as(x, T): x viewed at Go type T (type assertion / conversion without change of value)
 		a := arg(0)
